@@ -46,7 +46,9 @@ def _cfg(name):
     if name == "eigen":
         return EigenConfig(retry_double_precision=False)
     if name == "eigen-stab":
-        return EigenConfig(enhance_stability=True)
+        # a non-default exponent_multiplier: the CALLER (the preconditioner list) folds it into `root`; matrix_inverse_root itself must hand `root`
+        # on unchanged (C10: result = (A + eps I)^(-1/root); C11: eigenvalues <= eps^(-1/root))
+        return EigenConfig(enhance_stability=True, exponent_multiplier=1.82)
     if name == "newton":
         return CoupledNewtonConfig(max_iterations=7, tolerance=1e-3)
     if name == "higher":
